@@ -17,6 +17,15 @@ Arrangements (all are permutations of 0..n-1, position -> quantile rank):
                         (changes the local order, keeps each block's content).
   interleaved           an affine arrangement with its two halves interleaved (position 2k takes from the
                         first half, 2k+1 from the second): another short-range correlation structure.
+  modular-inverse(a, b) i -> a * (i + b)^-1 mod p in the prime field just above n (values >= n deleted).
+                        Measured over the lengths C11 builds (selftest/noise.py): the affine-derived families are
+                        *smoother* than independent noise (rank autocorrelation -0.29 at lag 1, up to +1.0 at
+                        Fibonacci lags; the standard deviation of sums over 16- and 32-bin windows averages
+                        0.55..0.65 of the white-noise value), which flatters a segmenter.  The inversion map has
+                        rank autocorrelations of the order 1/sqrt(n) and window sums averaging 0.93..1.0 of the
+                        white-noise value (single realisations 0.45..1.55), so this family is the one that
+                        exercises the "no false breakpoint" side of a claim.  It is a
+                        closed-form permutation, not a generator: no state, no seed.
 
 Everything is plain Python on lists; Phi^-1 is statistics.NormalDist.inv_cdf (stdlib, deterministic).
 """
